@@ -4,6 +4,10 @@ import PysphVerif.Lemmas.NnpsHash
 import PysphVerif.Lemmas.NnpsCellIdx
 import PysphVerif.Lemmas.NnpsSubgrid
 import PysphVerif.Lemmas.NnpsMorton
+import PysphVerif.Lemmas.NnpsZOrder
+import PysphVerif.Lemmas.NnpsZOrderSym
+import PysphVerif.Lemmas.NnpsStrat
+import PysphVerif.Lemmas.NnpsSfc
 import Mathlib.Data.Rat.Floor
 /-!
 # C01 — every neighbour-search algorithm returns exactly the true neighbour set
@@ -634,6 +638,823 @@ example : mortonSpread (2 ^ 21 - 1) = 0x1249249249249249 ∧
     mortonKey (2 ^ 21 - 1) (2 ^ 21 - 1) (2 ^ 21 - 1) = 2 ^ 63 - 1 ∧
     mortonKey 3 1 2 = 43 := by decide +kernel
 
+/-! ## z-order family (ZOrderNNPS, ExtendedZOrderNNPS) -/
+
+/-- `std::sort` at its specification: whatever order it leaves equal keys in, the result is a
+permutation of all particle ids, sorted by key -/
+def SortSpec (srt : (Nat → Nat) → Nat → List Nat) : Prop :=
+  ∀ key n, (srt key n).Perm (List.range n) ∧ (srt key n).Pairwise (fun p q => key p ≤ key q)
+
+/-- the insertion sort the executable model uses is one such function -/
+theorem sortPids_sortSpec : SortSpec sortPids := fun key n => sortPids_spec key n
+
+section zorder
+variable {α : Type} [Field α] [LinearOrder α] [IsStrictOrderedRing α] [FloorRing α]
+
+/-- the hypotheses on the arrays make every `ZIn` of the model acceptable -/
+private theorem zIn_ok (cs : α) (o : Pt α) (maxKey H : Nat) (srt : (Nat → Nat) → Nat → List Nat)
+    (hsrt : SortSpec srt) (arrs : List (List (Pt α)))
+    (hfit : ∀ a ∈ arrs, ∀ p ∈ a, cellGuard H (cell3 Int.floor cs o p) = true)
+    (hkey : ∀ a ∈ arrs, ∀ p ∈ a, zKey (cell3 Int.floor cs o p) < maxKey) :
+    ∀ inp ∈ arrs.map (zInOfPts Int.floor cs o srt), inp.Ok maxKey := by
+  intro inp hinp
+  obtain ⟨arr, harr, rfl⟩ := List.mem_map.mp hinp
+  have hcell : ∀ j, ∀ hj : j < arr.length,
+      cellAtOf Int.floor cs o arr j = cell3 Int.floor cs o arr[j] := by
+    intro j hj
+    simp only [cellAtOf, List.getElem?_eq_getElem hj]
+  refine ⟨(hsrt _ _).1, (hsrt _ _).2, ?_, ?_⟩
+  · intro j hj
+    show cellFits21 (cellAtOf Int.floor cs o arr j) = true
+    rw [hcell j hj]
+    exact cellGuard_fits H _ (hfit arr harr _ (List.getElem_mem hj))
+  · intro j hj
+    show zKey (cellAtOf Int.floor cs o arr j) < maxKey
+    rw [hcell j hj]
+    exact hkey arr harr _ (List.getElem_mem hj)
+
+/-- **ZOrderNNPS** (as it is in the tree now).  For every list of particle arrays (empty ones
+included), every sorting function, every (source, destination) pair and every destination
+particle `i`: the per-array sorted `(key, pid)` lists and `key_to_idx`, the cell-id numbering
+shared by all arrays, `_fill_nbr_boxes` with its second pass over the cells the source array does
+not occupy, and the walk of `find_nearest_neighbors` over the row of `i`'s cell id return exactly
+the brute-force set, without duplicates, with valid indices.
+
+Hypotheses: cell size `c > 0` at least every cut-off `rs·h`; every particle's cell has
+non-negative coordinates with one to spare below 2^21 (`cellGuard 1`, the range in which `get_key`
+is injective); every particle's key is below `max_key` (the size of `key_to_idx`). -/
+theorem nbrs_exact_ZOrderNNPS (rs c : α) (o : Pt α) (maxKey : Nat)
+    (srt : (Nat → Nat) → Nat → List Nat) (hsrt : SortSpec srt) (arrs : List (List (Pt α)))
+    (s d i : Nat) (src dst : List (Pt α)) (q : Pt α)
+    (hs : arrs[s]? = some src) (hd : arrs[d]? = some dst) (hq : dst[i]? = some q)
+    (hc : 0 < c) (hrs : 0 ≤ rs)
+    (hh : ∀ a ∈ arrs, ∀ p ∈ a, 0 ≤ p.h ∧ rs * p.h ≤ c)
+    (hfit : ∀ a ∈ arrs, ∀ p ∈ a, cellGuard 1 (cell3 Int.floor c o p) = true)
+    (hkey : ∀ a ∈ arrs, ∀ p ∈ a, zKey (cell3 Int.floor c o p) < maxKey) :
+    let cands := zOrderCands maxKey (arrs.map (zInOfPts Int.floor c o srt)) s d i
+    (nbrsOf rs src q cands).Perm (bruteForce rs src q) ∧ (nbrsOf rs src q cands).Nodup ∧
+      ∀ j ∈ nbrsOf rs src q cands, j < src.length := by
+  intro cands
+  have hsm : src ∈ arrs := List.mem_of_getElem? hs
+  have hdm : dst ∈ arrs := List.mem_of_getElem? hd
+  have hqm : q ∈ dst := List.mem_of_getElem? hq
+  have hi : i < dst.length := (List.getElem?_eq_some_iff.mp hq).1
+  have hcq : cellAtOf Int.floor c o dst i = cell3 Int.floor c o q := by simp only [cellAtOf, hq]
+  refine nbrs_exact_of_cands_perm_grid rs c o src q cands ?_ hc hrs (hh dst hdm q hqm).1
+    (hh dst hdm q hqm).2 (hh src hsm)
+  rw [gridCands_eq_stencilIdx]
+  have hperm := zCandsGen_perm maxKey 27 (maskZ 1) (maskZ_nodup 1)
+    (arrs.map (zInOfPts Int.floor c o srt)) (zIn_ok c o maxKey 1 srt hsrt arrs hfit hkey) s d i
+    (zInOfPts Int.floor c o srt src) (zInOfPts Int.floor c o srt dst)
+    (by rw [List.getElem?_map, hs]; rfl) (by rw [List.getElem?_map, hd]; rfl) hi
+    (zBoxes_fit 1 _ (by
+      show cellGuard 1 (cellAtOf Int.floor c o dst i) = true
+      rw [hcq]; exact hfit dst hdm q hqm))
+  refine hperm.trans (List.Perm.of_eq ?_)
+  show (List.range src.length).filter (fun j => decide (cellAtOf Int.floor c o src j ∈
+    zBoxes (maskZ 1) (cellAtOf Int.floor c o dst i))) = _
+  rw [hcq]
+  unfold stencilIdx
+  apply List.filter_congr
+  intro j hj
+  have hj' := List.mem_range.mp hj
+  have hcj : cellAtOf Int.floor c o src j = cell3 Int.floor c o src[j] := by
+    simp only [cellAtOf, List.getElem?_eq_getElem hj']
+  have hnn : nonnegCell (cellAtOf Int.floor c o src j) = true := by
+    rw [hcj]
+    exact cellFits21_nonneg _ (cellGuard_fits 1 _ (hfit src hsm _ (List.getElem_mem hj')))
+  have : (cellAtOf Int.floor c o src j ∈ zBoxes (maskZ 1) (cell3 Int.floor c o q)) ↔
+      inStencil (cell3 Int.floor c o q) (cellAtOf Int.floor c o src j) = true := by
+    rw [mem_zBoxes_maskZ, inStencil_iff]
+    constructor
+    · rintro ⟨_, h1, h2, h3⟩; exact ⟨by omega, by omega, by omega⟩
+    · rintro ⟨h1, h2, h3⟩; exact ⟨hnn, by omega, by omega, by omega⟩
+  by_cases hin : inStencil (cell3 Int.floor c o q) (cellAtOf Int.floor c o src j) = true
+  · simp [hin, this.mpr hin]
+  · have hn : ¬ cellAtOf Int.floor c o src j ∈ zBoxes (maskZ 1) (cell3 Int.floor c o q) :=
+      fun h => hin (this.mp h)
+    simp [hin, hn]
+
+/-- **ExtendedZOrderNNPS, `asymmetric=True`**: sub-cells of size `c/H` (`H ≥ 1`), the full `±H`
+mask, otherwise the bookkeeping of ZOrderNNPS; exact under the same hypotheses with the guard
+taken on the sub-cells (`H` to spare below 2^21). -/
+theorem nbrs_exact_ExtendedZOrderNNPS_asym (rs c : α) (H : Nat) (o : Pt α) (maxKey : Nat)
+    (srt : (Nat → Nat) → Nat → List Nat) (hsrt : SortSpec srt) (arrs : List (List (Pt α)))
+    (s d i : Nat) (src dst : List (Pt α)) (q : Pt α)
+    (hs : arrs[s]? = some src) (hd : arrs[d]? = some dst) (hq : dst[i]? = some q)
+    (hc : 0 < c) (hH : 1 ≤ H) (hrs : 0 ≤ rs)
+    (hh : ∀ a ∈ arrs, ∀ p ∈ a, 0 ≤ p.h ∧ rs * p.h ≤ c)
+    (hfit : ∀ a ∈ arrs, ∀ p ∈ a, cellGuard H (cell3 Int.floor (c / (H : α)) o p) = true)
+    (hkey : ∀ a ∈ arrs, ∀ p ∈ a, zKey (cell3 Int.floor (c / (H : α)) o p) < maxKey) :
+    let cands := extZOrderAsymCands maxKey H (arrs.map (zInOfPts Int.floor (c / (H : α)) o srt)) s d i
+    (nbrsOf rs src q cands).Perm (bruteForce rs src q) ∧ (nbrsOf rs src q cands).Nodup ∧
+      ∀ j ∈ nbrsOf rs src q cands, j < src.length := by
+  intro cands
+  have hsm : src ∈ arrs := List.mem_of_getElem? hs
+  have hdm : dst ∈ arrs := List.mem_of_getElem? hd
+  have hqm : q ∈ dst := List.mem_of_getElem? hq
+  have hi : i < dst.length := (List.getElem?_eq_some_iff.mp hq).1
+  have hcq : cellAtOf Int.floor (c / (H : α)) o dst i = cell3 Int.floor (c / (H : α)) o q := by
+    simp only [cellAtOf, hq]
+  have hperm := zCandsGen_perm maxKey ((2 * H + 1) ^ 3) (maskZ H) (maskZ_nodup H)
+    (arrs.map (zInOfPts Int.floor (c / (H : α)) o srt))
+    (zIn_ok (c / (H : α)) o maxKey H srt hsrt arrs hfit hkey) s d i
+    (zInOfPts Int.floor (c / (H : α)) o srt src) (zInOfPts Int.floor (c / (H : α)) o srt dst)
+    (by rw [List.getElem?_map, hs]; rfl) (by rw [List.getElem?_map, hd]; rfl) hi
+    (zBoxes_fit H _ (by
+      show cellGuard H (cellAtOf Int.floor (c / (H : α)) o dst i) = true
+      rw [hcq]; exact hfit dst hdm q hqm))
+  have hperm' : cands.Perm ((List.range src.length).filter (fun j =>
+      decide (cellAtOf Int.floor (c / (H : α)) o src j ∈
+        zBoxes (maskZ H) (cell3 Int.floor (c / (H : α)) o q)))) := by
+    have := hperm
+    rw [show (zInOfPts Int.floor (c / (H : α)) o srt dst).cellAt i =
+      cellAtOf Int.floor (c / (H : α)) o dst i from rfl, hcq] at this
+    exact this
+  refine exact_of_cover_nodup rs src q cands ?_ (hperm'.nodup_iff.mpr (List.nodup_range.filter _))
+  intro j hj ha
+  rw [hperm'.mem_iff, List.mem_filter, List.mem_range, decide_eq_true_eq]
+  refine ⟨hj, ?_⟩
+  have hjs : src[j]? = some src[j] := List.getElem?_eq_getElem hj
+  have hn : isNbr rs q src[j] = true := by simpa [accepts, hjs] using ha
+  have hmem : src[j] ∈ src := List.getElem_mem hj
+  have hcj : cellAtOf Int.floor (c / (H : α)) o src j = cell3 Int.floor (c / (H : α)) o src[j] := by
+    simp only [cellAtOf, hjs]
+  obtain ⟨⟨m1, m2, m3⟩, _⟩ := subgrid_cover rs c H o q src[j] src[j].h hc hH hrs (hh dst hdm q hqm).1
+    (hh src hsm _ hmem).1 (hh dst hdm q hqm).2 (hh src hsm _ hmem).2 (le_refl _) hn
+  rw [hcj, mem_zBoxes_maskZ]
+  exact ⟨cellFits21_nonneg _ (cellGuard_fits H _ (hfit src hsm _ hmem)), m1, m2, m3⟩
+
+/-- **ExtendedZOrderNNPS, `asymmetric=False`** (as it is in the tree now): sub-cells `c/H`, and a
+box at offset `m` from the destination particle's sub-cell is kept only if
+`|m| ≤ ⌈rs·max(hmax_src[cid of the box], h_cell)/(c/H)⌉` on every axis, where `h_cell` is the
+largest `h` over ALL arrays in the destination particle's sub-cell (`_cell_hmax`) joined with the
+source array's own `hmax` entry of that cell id.  The pruning never drops a box that holds a true
+neighbour: `hmax_src[cid]` bounds the `h` of the box's source particles, `h_cell` bounds the `h` of
+the destination particle, whichever array it belongs to. -/
+theorem nbrs_exact_ExtendedZOrderNNPS_sym (rs c : α) (H : Nat) (o : Pt α) (maxKey : Nat)
+    (srt : (Nat → Nat) → Nat → List Nat) (hsrt : SortSpec srt) (arrs : List (List (Pt α)))
+    (s d i : Nat) (src dst : List (Pt α)) (q : Pt α)
+    (hs : arrs[s]? = some src) (hd : arrs[d]? = some dst) (hq : dst[i]? = some q)
+    (hc : 0 < c) (hH : 1 ≤ H) (hrs : 0 ≤ rs)
+    (hh : ∀ a ∈ arrs, ∀ p ∈ a, 0 ≤ p.h ∧ rs * p.h ≤ c)
+    (hfit : ∀ a ∈ arrs, ∀ p ∈ a, cellGuard H (cell3 Int.floor (c / (H : α)) o p) = true)
+    (hkey : ∀ a ∈ arrs, ∀ p ∈ a, zKey (cell3 Int.floor (c / (H : α)) o p) < maxKey) :
+    let cands := extZOrderSymCands Int.ceil maxKey H rs (c / (H : α))
+      (arrs.map (zInOfPts Int.floor (c / (H : α)) o srt)) (arrs.map (fun a => hAtOf a)) s d i
+    (nbrsOf rs src q cands).Perm (bruteForce rs src q) ∧ (nbrsOf rs src q cands).Nodup ∧
+      ∀ j ∈ nbrsOf rs src q cands, j < src.length := by
+  intro cands
+  have hsm : src ∈ arrs := List.mem_of_getElem? hs
+  have hdm : dst ∈ arrs := List.mem_of_getElem? hd
+  have hqm : q ∈ dst := List.mem_of_getElem? hq
+  have hi : i < dst.length := (List.getElem?_eq_some_iff.mp hq).1
+  have hHpos : (0 : α) < (H : α) := by exact_mod_cast hH
+  have hsub : 0 < c / (H : α) := div_pos hc hHpos
+  have hok := zIn_ok (c / (H : α)) o maxKey H srt hsrt arrs hfit hkey
+  obtain ⟨a, b, hai, hbi, ctx⟩ := ZCtx.mk' maxKey (arrs.map (zInOfPts Int.floor (c / (H : α)) o srt))
+    hok s d i (zInOfPts Int.floor (c / (H : α)) o srt src) (zInOfPts Int.floor (c / (H : α)) o srt dst)
+    (by rw [List.getElem?_map, hs]; rfl) (by rw [List.getElem?_map, hd]; rfl) hi
+  have han : a.n = src.length := by rw [show a.n = a.toIn.n from rfl, hai]; rfl
+  have hacell : a.cellAt = cellAtOf Int.floor (c / (H : α)) o src := by
+    rw [show a.cellAt = a.toIn.cellAt from rfl, hai]; rfl
+  have hbcell : b.cellAt = cellAtOf Int.floor (c / (H : α)) o dst := by
+    rw [show b.cellAt = b.toIn.cellAt from rfl, hbi]; rfl
+  have hcq : b.cellAt i = cell3 Int.floor (c / (H : α)) o q := by
+    rw [hbcell]; simp only [cellAtOf, hq]
+  have ha : a ∈ (zBuild (arrs.map (zInOfPts Int.floor (c / (H : α)) o srt))).1 :=
+    List.mem_of_getElem? ctx.has
+  have hhs : (arrs.map (fun a => hAtOf a))[s]? = some (hAtOf src) := by
+    rw [List.getElem?_map, hs]; rfl
+  have hhd : (arrs.map (fun a => hAtOf a))[d]? = some (hAtOf dst) := by
+    rw [List.getElem?_map, hd]; rfl
+  have hcands : cands = zCandsRow a (zLengths a) (zRows ((2 * H + 1) ^ 3)
+      (zBuild (arrs.map (zInOfPts Int.floor (c / (H : α)) o srt))).1 s a
+      (zNbrSym Int.ceil maxKey H rs (c / (H : α))
+        ((zBuild (arrs.map (zInOfPts Int.floor (c / (H : α)) o srt))).1.zip
+          (arrs.map (fun a => hAtOf a))) a (hAtOf src)) (b.cids i)) := by
+    show extZOrderSymCands _ _ _ _ _ _ _ _ _ _ = _
+    unfold extZOrderSymCands
+    simp only [ctx.has, ctx.hbd, hhs]
+  by_cases hne : a.pids = []
+  · have h0 : src.length = 0 := by rw [← han]; exact ok_n_zero maxKey a ctx.oka hne
+    rw [hcands, zCandsRow_empty _ _ _ _ _ _ hne]
+    exact exact_of_cover_nodup rs src q [] (fun j hj _ => by omega) List.nodup_nil
+  · have hnn : ∀ c' cid, ∀ x ∈ zNbrSym Int.ceil maxKey H rs (c / (H : α))
+        ((zBuild (arrs.map (zInOfPts Int.floor (c / (H : α)) o srt))).1.zip
+          (arrs.map (fun a => hAtOf a))) a (hAtOf src) c' cid, 0 ≤ x := by
+      intro c' cid
+      unfold zNbrSym
+      exact zNbrIdxSym_nonneg _ _ _ _ _ _ _ _ _
+    rw [hcands, zCandsRow_rows maxKey _ _ s d i a b ctx _ hnn hne]
+    unfold zNbrSym
+    rw [zSym_flatMap]
+    generalize hhq : fmaxA (zHmax a (hAtOf src) (b.cids i))
+      (cellHmax maxKey ((zBuild (arrs.map (zInOfPts Int.floor (c / (H : α)) o srt))).1.zip
+        (arrs.map (fun a => hAtOf a))) (zKey (b.cellAt i))) = hq'
+    have hboxfit : ∀ bx ∈ zBoxes (maskZ H) (b.cellAt i), cellFits21 bx = true :=
+      zBoxes_fit H _ (by rw [hcq]; exact hfit dst hdm q hqm)
+    refine exact_of_cover_nodup rs src q _ ?_
+      (zSym_nodup Int.ceil maxKey (maskZ H) (maskZ_nodup H) rs (c / (H : α)) _ _ ctx.inv a ha
+        ctx.oka _ _ _ hboxfit)
+    intro j hj hacc
+    have hjs : src[j]? = some src[j] := List.getElem?_eq_getElem hj
+    have hn : isNbr rs q src[j] = true := by simpa [accepts, hjs] using hacc
+    have hmem : src[j] ∈ src := List.getElem_mem hj
+    have hcj : a.cellAt j = cell3 Int.floor (c / (H : α)) o src[j] := by
+      rw [hacell]; simp only [cellAtOf, hjs]
+    have hjn : j < a.n := by rw [han]; exact hj
+    have hjp : j ∈ a.pids := (ok_mem_pids maxKey a ctx.oka j).mpr hjn
+    -- the source particle's h is bounded by its cell id's hmax entry
+    have hhm : src[j].h ≤ zHmax a (hAtOf src) (a.cids j) := by
+      have := zHmax_ge _ _ ctx.inv a ha (hAtOf src) j hjp
+      simpa [hAtOf, hjs] using this
+    -- the destination particle's h is bounded by `_cell_hmax` of its cell
+    have hqh : q.h ≤ hq' := by
+      rw [← hhq]
+      refine le_trans ?_ (fmaxA_ge_right _ _)
+      have hzip : (b, hAtOf dst) ∈ (zBuild (arrs.map (zInOfPts Int.floor (c / (H : α)) o srt))).1.zip
+          (arrs.map (fun a => hAtOf a)) := by
+        apply List.mem_of_getElem? (i := d)
+        rw [List.getElem?_zip_eq_some]
+        exact ⟨ctx.hbd, hhd⟩
+      have hib : i ∈ b.pids := (ok_mem_pids maxKey b ctx.okb i).mpr ctx.hi
+      have := cellHmax_ge maxKey _
+        (fun x hx => ctx.inv.keysEq x.1 (List.of_mem_zip hx).1)
+        (fun x hx => ctx.inv.sorted x.1 (List.of_mem_zip hx).1)
+        b (hAtOf dst) hzip i hib (ctx.okb.below i ctx.hi)
+      rw [show b.key i = zKey (b.cellAt i) from rfl] at this
+      simpa [hAtOf, hq] using this
+    obtain ⟨⟨m1, m2, m3⟩, ⟨k1, k2, k3⟩⟩ := subgrid_cover rs c H o q src[j]
+      (zHmax a (hAtOf src) (a.cids j)) hc hH hrs (hh dst hdm q hqm).1 (hh src hsm _ hmem).1
+      (hh dst hdm q hqm).2 (hh src hsm _ hmem).2 hhm hn
+    have hceil : ⌈rs * fmaxA (zHmax a (hAtOf src) (a.cids j)) q.h / (c / (H : α))⌉ ≤
+        ⌈rs * fmaxA (zHmax a (hAtOf src) (a.cids j)) hq' / (c / (H : α))⌉ := by
+      apply Int.ceil_mono
+      apply div_le_div_of_nonneg_right _ (le_of_lt hsub)
+      exact mul_le_mul_of_nonneg_left (fmaxA_mono_right _ _ _ hqh) hrs
+    rw [← hcj, ← hcq] at m1 m2 m3 k1 k2 k3
+    apply zSym_mem Int.ceil maxKey (maskZ H) rs (c / (H : α)) _ _ ctx.inv a ha ctx.oka _ _ _ j hjn
+      ((a.cellAt j).1 - (b.cellAt i).1, (a.cellAt j).2.1 - (b.cellAt i).2.1,
+        (a.cellAt j).2.2 - (b.cellAt i).2.2)
+    · exact (mem_maskZ H _).mpr ⟨m1, m2, m3⟩
+    · simp only [Cell.add]; ext <;> simp
+    · exact ⟨le_trans k1 hceil, le_trans k2 hceil, le_trans k3 hceil⟩
+
+end zorder
+
+/-! ## stratified classes (StratifiedHashNNPS) -/
+section strat
+variable {α : Type} [Field α] [LinearOrder α] [IsStrictOrderedRing α] [FloorRing α]
+
+/-- **strat_cover.**  Let the source particle `p` be stored at a level whose cell size is `U/H`
+with `rs·h_p ≤ U` (`U` = the upper end of the level's interval of cut-offs).  Then for EVERY
+destination particle `q` (whatever its `h`) of which `p` is a neighbour, `p`'s cell at that level
+lies within the mask half-width `⌈max(rs·h_q, U)·H/U⌉` the query uses for that level, on every
+axis. -/
+theorem strat_cover (rs U : α) (H : Nat) (o q p : Pt α) (hU : 0 < U) (hH : 1 ≤ H) (hrs : 0 ≤ rs)
+    (hq : 0 ≤ q.h) (hp : 0 ≤ p.h) (hpU : rs * p.h ≤ U) (h : isNbr rs q p = true) :
+    let a := cell3 Int.floor (U / (H : α)) o p
+    let b := cell3 Int.floor (U / (H : α)) o q
+    let K := ⌈fmaxA (rs * q.h) U * (H : α) / U⌉.toNat
+    (a.1 - b.1).natAbs ≤ K ∧ (a.2.1 - b.2.1).natAbs ≤ K ∧ (a.2.2 - b.2.2).natAbs ≤ K := by
+  intro a b K
+  have hHpos : (0 : α) < (H : α) := by exact_mod_cast hH
+  have hs : 0 < U / (H : α) := div_pos hU hHpos
+  have key : ∃ r, 0 ≤ r ∧ r ≤ fmaxA (rs * q.h) U ∧ dist2 p q < r * r := by
+    rcases (isNbr_iff rs q p).mp h with h1 | h1
+    · exact ⟨rs * q.h, mul_nonneg hrs hq, fmaxA_ge_left _ _, h1⟩
+    · exact ⟨rs * p.h, mul_nonneg hrs hp, le_trans hpU (fmaxA_ge_right _ _), h1⟩
+  obtain ⟨r, hr0, hrR, hd⟩ := key
+  obtain ⟨hx, hy, hz⟩ := lt_cell_of_dist2_lt hr0 hd
+  have hKK : ⌈r / (U / (H : α))⌉ ≤ ⌈fmaxA (rs * q.h) U * (H : α) / U⌉ := by
+    apply Int.ceil_mono
+    rw [div_div_eq_mul_div]
+    apply div_le_div_of_nonneg_right _ (le_of_lt hU)
+    exact mul_le_mul_of_nonneg_right hrR (le_of_lt hHpos)
+  have ax : ∀ (u v o' : α), |u - v| < r →
+      ((⌊(u - o') / (U / (H : α))⌋ - ⌊(v - o') / (U / (H : α))⌋).natAbs : Int) ≤
+        ⌈r / (U / (H : α))⌉ := by
+    intro u v o' huv
+    apply floor_adj_ceil _ _ r _ hs
+    have e : (u - o') - (v - o') = u - v := by ring
+    rw [e]; exact huv
+  have ax1 := ax p.x q.x o.x hx
+  have ax2 := ax p.y q.y o.y hy
+  have ax3 := ax p.z q.z o.z hz
+  simp only [a, b, K, cell3, cellOf]
+  refine ⟨?_, ?_, ?_⟩ <;> omega
+
+/-- **StratifiedHashNNPS** (as it is in the tree now): `num_levels = L` hash tables per array,
+a particle stored at level `floor((rs·h − hmin)/interval)` by its cell of size
+`(hmin + (level+1)·interval)/H`, the query visiting, for every non-empty level, the mask of
+half-width `⌈max(rs·h_q, U_level)·H/U_level⌉`.  Exact for every hash function / table size, every
+`L, H ≥ 1`, every `EPS > 0`, every destination particle (no bound on its `h`), every source array
+with cut-offs at most the cell size `cs ≥ hmin ≥ 0`. -/
+theorem nbrs_exact_StratifiedHashNNPS (rs cs hmin eps : α) (L H : Nat) (o : Pt α)
+    (hash : Cell → Nat) (src : List (Pt α)) (q : Pt α)
+    (hrs : 0 < rs) (hL : 1 ≤ L) (hH : 1 ≤ H) (heps : 0 < eps) (hmin0 : 0 ≤ hmin) (hcs : hmin ≤ cs)
+    (hq : 0 ≤ q.h) (hsrc : ∀ p ∈ src, 0 ≤ p.h ∧ rs * p.h ≤ cs)
+    (hlo : ∀ p ∈ src, o.x ≤ p.x ∧ o.y ≤ p.y ∧ o.z ≤ p.z) :
+    let cands := stratHashCands Int.floor Int.ceil hash rs cs hmin eps L H o src q
+    (nbrsOf rs src q cands).Perm (bruteForce rs src q) ∧ (nbrsOf rs src q cands).Nodup ∧
+      ∀ j ∈ nbrsOf rs src q cands, j < src.length := by
+  intro cands
+  have hivl := stratInterval_pos cs hmin eps L hL heps hcs
+  have hHpos : (0 : α) < (H : α) := by exact_mod_cast hH
+  refine exact_of_cover_nodup rs src q cands ?_ (stratGen_nodup _ _ _ _ _ _ _ _)
+  intro j hj ha
+  have hjs : src[j]? = some src[j] := List.getElem?_eq_getElem hj
+  have hn : isNbr rs q src[j] = true := by simpa [accepts, hjs] using ha
+  have hmem : src[j] ∈ src := List.getElem_mem hj
+  have hhj : hAtOf src j = src[j].h := by simp only [hAtOf, hjs]
+  apply mem_stratGen _ _ _ _ _ _ _ _ j hj
+  · show stratLevel Int.floor rs hmin (stratInterval cs hmin eps L) (hAtOf src j) < L
+    rw [hhj]
+    exact strat_level_lt rs cs hmin eps _ L hL heps hcs (hsrc _ hmem).2
+  · show cellAtOf Int.floor _ o src j ∈ stratBoxes _ _
+    rw [hhj]
+    generalize hl : stratLevel Int.floor rs hmin (stratInterval cs hmin eps L) src[j].h = l
+    have hU := stratHmaxLevel_pos rs hmin (stratInterval cs hmin eps L) l hrs hmin0 hivl
+    have hpU : rs * src[j].h ≤ stratHmaxLevel rs hmin (stratInterval cs hmin eps L) l := by
+      rw [← hl]; exact le_of_lt (strat_level_bound rs hmin _ _ hrs hivl)
+    have hcj : cellAtOf Int.floor (stratHmaxLevel rs hmin (stratInterval cs hmin eps L) l / (H : α))
+        o src j = cell3 Int.floor (stratHmaxLevel rs hmin (stratInterval cs hmin eps L) l / (H : α))
+          o src[j] := by simp only [cellAtOf, hjs]
+    rw [hcj, mem_stratBoxes]
+    refine ⟨cell_nonneg _ o _ (div_pos hU hHpos) (hlo _ hmem), ?_⟩
+    exact strat_cover rs _ H o q src[j] hU hH (le_of_lt hrs) hq (hsrc _ hmem).1 hpU hn
+
+/-- **sfc_cover.**  Source particle `p` stored at a level with cell size `rs·ck`, `h_p ≤ ck`;
+destination particle `q` with `0 < h_q ≤ hm` (`hm` = the largest `h` in `q`'s cell, `_cell_hmax`).
+If `p` is a neighbour of `q`, `p`'s cell at that level lies within `⌈hm/ck⌉` (= `_get_H(hm, ck)`)
+of `q`'s cell at that level on every axis. -/
+theorem sfc_cover (rs ck hm : α) (o q p : Pt α) (hck : 0 < ck) (hrs : 0 < rs) (hq : 0 < q.h)
+    (hp : 0 ≤ p.h) (hpk : p.h ≤ ck) (hqm : q.h ≤ hm) (h : isNbr rs q p = true) :
+    let a := cell3 Int.floor (rs * ck) o p
+    let b := cell3 Int.floor (rs * ck) o q
+    let K := ⌈hm / ck⌉.toNat
+    (a.1 - b.1).natAbs ≤ K ∧ (a.2.1 - b.2.1).natAbs ≤ K ∧ (a.2.2 - b.2.2).natAbs ≤ K := by
+  intro a b K
+  have hs : 0 < rs * ck := mul_pos hrs hck
+  have hm0 : 0 < hm := lt_of_lt_of_le hq hqm
+  have hone : (1 : Int) ≤ ⌈hm / ck⌉ := Int.one_le_ceil_iff.mpr (div_pos hm0 hck)
+  have key : ∃ r, 0 ≤ r ∧ dist2 p q < r * r ∧ ⌈r / (rs * ck)⌉ ≤ ⌈hm / ck⌉ := by
+    rcases (isNbr_iff rs q p).mp h with h1 | h1
+    · refine ⟨rs * q.h, mul_nonneg (le_of_lt hrs) (le_of_lt hq), h1, Int.ceil_mono ?_⟩
+      rw [mul_div_mul_left _ _ (ne_of_gt hrs)]
+      exact div_le_div_of_nonneg_right hqm (le_of_lt hck)
+    · refine ⟨rs * p.h, mul_nonneg (le_of_lt hrs) hp, h1, le_trans ?_ hone⟩
+      rw [Int.ceil_le, mul_div_mul_left _ _ (ne_of_gt hrs)]
+      simpa using (div_le_one hck).mpr hpk
+  obtain ⟨r, hr0, hd, hKK⟩ := key
+  obtain ⟨hx, hy, hz⟩ := lt_cell_of_dist2_lt hr0 hd
+  have ax : ∀ (u v o' : α), |u - v| < r →
+      ((⌊(u - o') / (rs * ck)⌋ - ⌊(v - o') / (rs * ck)⌋).natAbs : Int) ≤ ⌈r / (rs * ck)⌉ := by
+    intro u v o' huv
+    apply floor_adj_ceil _ _ r _ hs
+    have e : (u - o') - (v - o') = u - v := by ring
+    rw [e]; exact huv
+  have ax1 := ax p.x q.x o.x hx
+  have ax2 := ax p.y q.y o.y hy
+  have ax3 := ax p.z q.z o.z hz
+  simp only [a, b, K, cell3, cellOf]
+  refine ⟨?_, ?_, ?_⟩ <;> omega
+
+/-- the cells of the coarser levels are the finest-level cell divided by `2^k` (the levels' grids
+are nested) -/
+theorem sfc_cell_nested (s0 : α) (o p : Pt α) (k : Nat) :
+    cell3 Int.floor (s0 * 2 ^ k) o p =
+      ((cell3 Int.floor s0 o p).1 / 2 ^ k, (cell3 Int.floor s0 o p).2.1 / 2 ^ k,
+        (cell3 Int.floor s0 o p).2.2 / 2 ^ k) := by
+  have ax : ∀ u : α, ⌊u / (s0 * 2 ^ k)⌋ = ⌊u / s0⌋ / 2 ^ k := by
+    intro u
+    have e : u / (s0 * 2 ^ k) = (u / s0) / ((2 ^ k : ℕ) : α) := by
+      push_cast; rw [div_div]
+    rw [e, Int.floor_div_natCast]
+    push_cast; rfl
+  simp only [cell3, cellOf, ax]
+
+/-- componentwise division of a cell by `2^k` -/
+private def divk (k : Nat) (c : Cell) : Cell := (c.1 / 2 ^ k, c.2.1 / 2 ^ k, c.2.2 / 2 ^ k)
+
+private theorem divk_guard (G k : Nat) (c : Cell) (h : cellGuard G c = true) :
+    cellGuard G (divk k c) = true := by
+  rw [cellGuard_iff] at h ⊢
+  obtain ⟨⟨a1, a2⟩, ⟨b1, b2⟩, ⟨c1, c2⟩⟩ := h
+  have p2 : (0 : Int) ≤ 2 ^ k := by positivity
+  have e1 := Int.ediv_le_self (2 ^ k) a1
+  have e2 := Int.ediv_le_self (2 ^ k) b1
+  have e3 := Int.ediv_le_self (2 ^ k) c1
+  have n1 := Int.ediv_nonneg a1 p2
+  have n2 := Int.ediv_nonneg b1 p2
+  have n3 := Int.ediv_nonneg c1 p2
+  simp only [divk]
+  refine ⟨⟨n1, ?_⟩, ⟨n2, ?_⟩, ⟨n3, ?_⟩⟩ <;> omega
+
+/-- **StratifiedSFCNNPS** (as it is in the tree now; asymmetric mode, the only one the constructor
+can select).  `L` levels with cell sizes `rs·c0·2^k`; a particle of level `lev h` is keyed by
+`(level << B) + get_key(cell at its level)`; the keys are sorted per array; for every (level,
+finest-level key) met — the source array's own particles first, then the particles of the other
+arrays — one segment of `nbr_boxes` lists, for every level `k`, the boxes `±⌈hmax_cell/(c0·2^k)⌉`
+around the representative's cell at level `k` that the source array occupies (`hmax_cell` =
+`_cell_hmax`: the largest `h` over ALL arrays in the representative's cell at its level); the query
+walks the runs of the segment of (level of `q`, finest-level key of `q`).  The result is exactly
+the brute-force set, without duplicates, with valid indices, for every list of arrays (empty ones
+included), every sorting function, every (source, destination) pair.
+
+Hypotheses: `h > 0`; the level function `lev` (any function of `h`) maps every particle to an
+existing level whose cell size is at least the particle's cut-off (`h ≤ c0·2^(lev h)`) — the
+code's `_get_level` guarantees this only up to its `EPS` (see `sfc_level_eps_sliver`); the
+decidable guards: finest-level cells non-negative with `G` to spare below 2^21 where
+`h ≤ G·c0` for all particles (so every mask cell is in the range where `get_key` is injective),
+keys without level bits below `2^B`. -/
+theorem nbrs_exact_StratifiedSFCNNPS (rs c0 : α) (L B G : Nat) (o : Pt α) (lev : α → Nat)
+    (size cells : Nat → α) (hsize : ∀ k, k < L → size k = rs * c0 * 2 ^ k)
+    (hcells : ∀ k, k < L → cells k = c0 * 2 ^ k)
+    (srt : (Nat → Nat) → Nat → List Nat) (hsrt : SortSpec srt) (arrs : List (List (Pt α)))
+    (s d i : Nat) (src dst : List (Pt α)) (q : Pt α)
+    (hs : arrs[s]? = some src) (hd : arrs[d]? = some dst) (hq : dst[i]? = some q)
+    (hrs : 0 < rs) (hc0 : 0 < c0)
+    (hpart : ∀ a ∈ arrs, ∀ p ∈ a, 0 < p.h ∧ lev p.h < L ∧ p.h ≤ c0 * 2 ^ (lev p.h) ∧
+      p.h ≤ (G : α) * c0)
+    (hfit : ∀ a ∈ arrs, ∀ p ∈ a, cellGuard G (cell3 Int.floor (rs * c0) o p) = true)
+    (hkey : ∀ a ∈ arrs, ∀ p ∈ a, zKey (cell3 Int.floor (rs * c0 * 2 ^ (lev p.h)) o p) < 2 ^ B) :
+    let cands := sfcCands Int.ceil B L cells
+      (arrs.map (sInOfPtsGen Int.floor size lev o srt B))
+      (arrs.map (fun a => hAtOf a)) s d i
+    (nbrsOf rs src q cands).Perm (bruteForce rs src q) ∧ (nbrsOf rs src q cands).Nodup ∧
+      ∀ j ∈ nbrsOf rs src q cands, j < src.length := by
+  intro cands
+  have hsm : src ∈ arrs := List.mem_of_getElem? hs
+  have hdm : dst ∈ arrs := List.mem_of_getElem? hd
+  have hqm : q ∈ dst := List.mem_of_getElem? hq
+  have hi : i < dst.length := (List.getElem?_eq_some_iff.mp hq).1
+  -- the input arrays of the model and their cells
+  generalize hmk : (fun arr => sfcFill B (sInOfPtsGen Int.floor size lev o srt B arr)) = mk
+  have hmkn : ∀ arr, (mk arr).n = arr.length := by intro arr; rw [← hmk]; rfl
+  have hmkl : ∀ arr j, (mk arr).levelOf j = lev (hAtOf arr j) := by intro arr j; rw [← hmk]; rfl
+  have hmkc : ∀ arr k j, (mk arr).cellAtL k j = cellAtOf Int.floor (size k) o arr j := by
+    intro arr k j; rw [← hmk]; rfl
+  have hcellL : ∀ arr, ∀ j, ∀ hj : j < arr.length, ∀ k, k < L →
+      (mk arr).cellAtL k j = divk k (cell3 Int.floor (rs * c0) o arr[j]) := by
+    intro arr j hj k hk
+    rw [hmkc, hsize k hk]
+    simp only [cellAtOf, List.getElem?_eq_getElem hj]
+    exact sfc_cell_nested (rs * c0) o _ k
+  have hL : 0 < L := lt_of_le_of_lt (Nat.zero_le _) (hpart dst hdm q hqm).2.1
+  have hlevL : ∀ arr, ∀ j, ∀ hj : j < arr.length, (mk arr).levelOf j = lev arr[j].h := by
+    intro arr j hj
+    rw [hmkl]
+    simp only [hAtOf, List.getElem?_eq_getElem hj]
+  have hokIn : ∀ arr ∈ arrs, (mk arr).Ok B L := by
+    intro arr harr
+    rw [← hmk]
+    apply sfcFill_ok
+    refine ⟨(hsrt _ _).1, (hsrt _ _).2, ?_, ?_⟩
+    · intro j hj k hk
+      have := hcellL arr j hj k hk
+      rw [← hmk] at this
+      show cellFits21 ((sfcFill B (sInOfPtsGen Int.floor size lev o srt B arr)).cellAtL k j) = true
+      rw [this]
+      exact cellGuard_fits G _ (divk_guard G k _ (hfit arr harr _ (List.getElem_mem hj)))
+    · intro j hj
+      have hlv := (hpart arr harr _ (List.getElem_mem hj)).2.1
+      show zKey (cellAtOf Int.floor (size (lev (hAtOf arr j))) o arr j) < 2 ^ B
+      simp only [cellAtOf, hAtOf, List.getElem?_eq_getElem hj]
+      rw [hsize _ hlv]
+      exact hkey arr harr _ (List.getElem_mem hj)
+  -- the model's arrays
+  have has : (List.map (sfcFill B) (arrs.map (sInOfPtsGen Int.floor size lev o srt B)))
+      = arrs.map mk := by rw [List.map_map, ← hmk]; rfl
+  have e1 : (arrs.map mk)[s]? = some (mk src) := by rw [List.getElem?_map, hs]; rfl
+  have e2 : (arrs.map mk)[d]? = some (mk dst) := by rw [List.getElem?_map, hd]; rfl
+  have hc : cands = sfcCands Int.ceil B L cells
+      (arrs.map (sInOfPtsGen Int.floor size lev o srt B))
+      (arrs.map (fun a => hAtOf a)) s d i := rfl
+  rw [hc]
+  unfold sfcCands
+  simp only [has, e1, e2]
+  have hoka := hokIn src hsm
+  have hokb := hokIn dst hdm
+  have hokAll : ∀ x ∈ arrs.map mk, x.Ok B L := by
+    intro x hx
+    obtain ⟨arr, harr, rfl⟩ := List.mem_map.mp hx
+    exact hokIn arr harr
+  by_cases hne : (mk src).pids.isEmpty = true
+  · have h0 : src.length = 0 := by
+      have := hoka.perm.length_eq
+      rw [List.isEmpty_iff] at hne
+      rw [hne, hmkn] at this
+      simpa using this.symm
+    simp only [hne, if_true]
+    exact exact_of_cover_nodup rs src q [] (fun j hj _ => by omega) List.nodup_nil
+  · simp only [hne, Bool.false_eq_true, if_false]
+    -- the table entry of (level of q, finest key of q) is the segment of a representative
+    have hib : i ∈ (mk dst).pids := (hokb.mem_pids i).mpr (by rw [hmkn]; exact hi)
+    obtain ⟨w, ⟨hw1, hw2⟩, ⟨hwl, hwk⟩, htab⟩ := sfcTable_fold
+      (sfcWriterSeg Int.ceil B L cells
+        ((arrs.map mk).zip (arrs.map (fun a => hAtOf a))) (mk src))
+      ((mk dst).levelOf i) (zKey ((mk dst).cellAtL 0 i)) (fun w => w.1 ∈ arrs.map mk ∧ w.2 ∈ w.1.pids)
+      (sfcWriters (arrs.map mk) s (mk src)) (fun _ _ => none)
+      (fun w hw => mem_sfcWriters _ s _ (List.mem_of_getElem? e1) w hw) (Or.inl rfl)
+      (Or.inl ⟨(mk dst, i), sfcWriters_covers _ s d _ _ e1 e2 i hib, rfl, rfl⟩)
+    unfold sfcTable
+    rw [htab]
+    simp only
+    -- the representative has the cells of q at every level
+    obtain ⟨warr, hwarr, hwe⟩ := List.mem_map.mp hw1
+    have hwj : w.2 < warr.length := by
+      have := (hokAll w.1 hw1).mem_pids w.2 |>.mp hw2
+      rw [← hwe, hmkn] at this; exact this
+    have hcell0 : cell3 Int.floor (rs * c0) o warr[w.2] = cell3 Int.floor (rs * c0) o q := by
+      have h1 := hcellL warr w.2 hwj 0 hL
+      have h2 := hcellL dst i hi 0 hL
+      rw [hwe] at h1
+      have hz : w.1.cellAtL 0 w.2 = (mk dst).cellAtL 0 i := by
+        apply zKey_inj _ _ _ _ hwk
+        · exact (hokAll w.1 hw1).fits w.2 ((hokAll w.1 hw1).mem_pids w.2 |>.mp hw2) 0 hL
+        · exact hokb.fits i (by rw [hmkn]; exact hi) 0 hL
+      rw [h1, h2] at hz
+      have hq' : dst[i] = q := by
+        have := List.getElem?_eq_getElem hi; rw [hq] at this; exact (Option.some.inj this).symm
+      rw [hq'] at hz
+      simpa [divk] using hz
+    have hrep : ∀ k, k < L → w.1.cellAtL k w.2 = divk k (cell3 Int.floor (rs * c0) o q) := by
+      intro k hk
+      rw [← hwe, hcellL warr w.2 hwj k hk, hcell0]
+    have hqcell : ∀ k, divk k (cell3 Int.floor (rs * c0) o q) = cell3 Int.floor (rs * c0 * 2 ^ k) o q :=
+      fun k => (sfc_cell_nested (rs * c0) o q k).symm
+    have hqlev : (mk dst).levelOf i = lev q.h := by
+      rw [hlevL dst i hi]
+      have := List.getElem?_eq_getElem hi; rw [hq] at this
+      rw [← Option.some.inj this]
+    -- the largest h in q's cell
+    generalize hhm : sfcCellHmax B ((arrs.map mk).zip (arrs.map (fun a => hAtOf a)))
+      (w.1.levelOf w.2) (w.1.skey w.2) = hmc
+    have hqL : (mk dst).levelOf i < L := by rw [hqlev]; exact (hpart dst hdm q hqm).2.1
+    have hskey : w.1.skey w.2 = (mk dst).skey i := by
+      show zKey (w.1.cellAtL (w.1.levelOf w.2) w.2) = zKey ((mk dst).cellAtL ((mk dst).levelOf i) i)
+      rw [hwl, hrep _ hqL, hcellL dst i hi _ hqL]
+      have := List.getElem?_eq_getElem hi; rw [hq] at this
+      rw [← Option.some.inj this]
+    have hqh : q.h ≤ hmc := by
+      rw [← hhm, hwl, hskey]
+      have hzip : (mk dst, hAtOf dst) ∈ (arrs.map mk).zip (arrs.map (fun a => hAtOf a)) := by
+        apply List.mem_of_getElem? (i := d)
+        rw [List.getElem?_zip_eq_some]
+        exact ⟨e2, by rw [List.getElem?_map, hd]; rfl⟩
+      have := sfcCellHmax_ge B L _ (fun x hx => hokAll x.1 (List.of_mem_zip hx).1) (mk dst) (hAtOf dst)
+        hzip i (by rw [hmkn]; exact hi)
+      simpa [hAtOf, hq] using this
+    have hmcG : hmc ≤ (G : α) * c0 := by
+      rw [← hhm]
+      apply sfcCellHmax_le B _ _ _ _ (mul_nonneg (Nat.cast_nonneg G) (le_of_lt hc0))
+      intro x hx p hp
+      have hx1 := (List.of_mem_zip hx)
+      obtain ⟨k, hk⟩ := List.mem_iff_getElem?.mp hx
+      rw [List.getElem?_zip_eq_some] at hk
+      obtain ⟨arr, harr⟩ : ∃ arr, arrs[k]? = some arr := by
+        cases h : arrs[k]? with
+        | none => rw [List.getElem?_map, h] at hk; exact absurd hk.1 (by simp)
+        | some arr => exact ⟨arr, rfl⟩
+      have hx1e : x.1 = mk arr := by
+        have := hk.1; rw [List.getElem?_map, harr] at this; exact (Option.some.inj this).symm
+      have hx2e : x.2 = hAtOf arr := by
+        have := hk.2; rw [List.getElem?_map, harr] at this; exact (Option.some.inj this).symm
+      have harrm : arr ∈ arrs := List.mem_of_getElem? harr
+      have hpl : p < arr.length := by
+        have := (hokIn arr harrm).mem_pids p |>.mp (by rw [← hx1e]; exact hp)
+        rw [hmkn] at this; exact this
+      rw [hx2e]
+      simp only [hAtOf, List.getElem?_eq_getElem hpl]
+      exact (hpart arr harrm _ (List.getElem_mem hpl)).2.2.2
+    -- mask half-widths and boxes
+    have hck : ∀ k : Nat, (0 : α) < c0 * 2 ^ k := fun k => mul_pos hc0 (by positivity)
+    have hHk : ∀ k : Nat, ⌈hmc / (c0 * 2 ^ k)⌉.toNat ≤ G := by
+      intro k
+      have h1 : hmc / (c0 * 2 ^ k) ≤ (G : α) := by
+        rw [div_le_iff₀ (hck k)]
+        have : (1 : α) ≤ 2 ^ k := one_le_pow₀ (by norm_num)
+        have hG0 : (0 : α) ≤ (G : α) := Nat.cast_nonneg G
+        calc hmc ≤ (G : α) * c0 := hmcG
+          _ = (G : α) * (c0 * 1) := by ring
+          _ ≤ (G : α) * (c0 * 2 ^ k) := by
+            apply mul_le_mul_of_nonneg_left _ hG0
+            exact mul_le_mul_of_nonneg_left this (le_of_lt hc0)
+      have h2 : ⌈hmc / (c0 * 2 ^ k)⌉ ≤ (G : Int) := by
+        rw [Int.ceil_le]; exact_mod_cast h1
+      omega
+    have hqguard : ∀ k, cellGuard G (divk k (cell3 Int.floor (rs * c0) o q)) = true :=
+      fun k => divk_guard G k _ (hfit dst hdm q hqm)
+    have hboxfit : ∀ k, ∀ bx ∈ zBoxes (maskZ (⌈hmc / (c0 * 2 ^ k)⌉.toNat))
+        (divk k (cell3 Int.floor (rs * c0) o q)), cellFits21 bx = true := by
+      intro k bx hbx
+      obtain ⟨hnn, h1, h2, h3⟩ := (mem_zBoxes_maskZ _ _ _).mp hbx
+      have hg := (cellGuard_iff G _).mp (hqguard k)
+      have hH := hHk k
+      rw [nonnegCell_iff] at hnn
+      rw [cellFits21_iff]
+      refine ⟨⟨hnn.1, ?_⟩, ⟨hnn.2.1, ?_⟩, ⟨hnn.2.2, ?_⟩⟩ <;> omega
+    -- the walk over the segment = levels × boxes × runs
+    have hseg : (sfcWriterSeg Int.ceil B L cells
+        ((arrs.map mk).zip (arrs.map (fun a => hAtOf a))) (mk src) w).flatMap (sfcRun B (mk src)) =
+        (List.range L).flatMap (fun k =>
+          (zBoxes (maskZ (⌈hmc / (c0 * 2 ^ k)⌉.toNat)) (divk k (cell3 Int.floor (rs * c0) o q))).flatMap
+            (sfcLookup B (mk src) k)) := by
+      unfold sfcWriterSeg sfcSegment
+      rw [hhm, List.flatMap_assoc]
+      apply List.flatMap_congr
+      intro k hk
+      have hkL : k < L := List.mem_range.mp hk
+      have hne0 : ¬ c0 * 2 ^ k = 0 := ne_of_gt (hck k)
+      simp only [hcells k hkL, hne0, if_false, hrep k hkL]
+      rw [flatMap_filterMap_eq]
+      unfold zBoxes
+      apply List.flatMap_congr
+      intro bx _
+      unfold sfcLookup
+      cases (mk src).getIdx B k (zKey bx) <;> rfl
+    rw [hseg]
+    have hspec : ∀ k, k < L → ∀ bx ∈ zBoxes (maskZ (⌈hmc / (c0 * 2 ^ k)⌉.toNat))
+        (divk k (cell3 Int.floor (rs * c0) o q)),
+        (sfcLookup B (mk src) k bx).Nodup ∧ ∀ j, j ∈ sfcLookup B (mk src) k bx ↔
+          j < src.length ∧ (mk src).levelOf j = k ∧ (mk src).cellAtL k j = bx := by
+      intro k hkL bx hbx
+      have := sfcLookup_spec B L (mk src) hoka k hkL bx (hboxfit k bx hbx)
+      rw [hmkn] at this
+      exact this
+    refine exact_of_cover_nodup rs src q _ ?_
+      (levelFlat_nodup L src.length (mk src).levelOf (mk src).cellAtL _ _
+        (fun k => zBoxes_nodup _ (maskZ_nodup _) _) hspec)
+    intro j hj hacc
+    have hjs : src[j]? = some src[j] := List.getElem?_eq_getElem hj
+    have hn : isNbr rs q src[j] = true := by simpa [accepts, hjs] using hacc
+    have hmem : src[j] ∈ src := List.getElem_mem hj
+    obtain ⟨hp0, hpL, hpc, _⟩ := hpart src hsm _ hmem
+    have hq0 : 0 < q.h := (hpart dst hdm q hqm).1
+    apply mem_levelFlat L src.length (mk src).levelOf (mk src).cellAtL _ _ hspec j hj
+    · rw [hlevL src j hj]; exact hpL
+    · rw [hlevL src j hj, hcellL src j hj _ hpL, mem_zBoxes_maskZ]
+      refine ⟨cellFits21_nonneg _ (cellGuard_fits G _ (divk_guard G _ _ (hfit src hsm _ hmem))), ?_⟩
+      have := sfc_cover rs (c0 * 2 ^ (lev src[j].h)) hmc o q src[j] (hck _) hrs hq0 (le_of_lt hp0) hpc
+        hqh hn
+      rw [show rs * (c0 * 2 ^ (lev src[j].h)) = rs * c0 * 2 ^ (lev src[j].h) by ring] at this
+      rw [hqcell, sfc_cell_nested (rs * c0) o src[j] (lev src[j].h)] at *
+      simpa [divk, sfc_cell_nested] using this
+
+private theorem pow2_eq (n : Nat) : (pow2 n : α) = 2 ^ n := by
+  induction n with
+  | zero => simp [pow2]
+  | succ n ih => simp only [pow2, ih]; ring
+
+/-- the cell sizes of the code, `(cell_size/radius_scale)/2^(num_levels-k-1)`, are the finest one
+times `2^k` -/
+theorem sfcCell_eq (rs cs : α) (L k : Nat) (hk : k < L) :
+    sfcCell rs cs L k = sfcCell rs cs L 0 * 2 ^ k := by
+  unfold sfcCell
+  rw [pow2_eq, pow2_eq]
+  have e : L - 0 - 1 = (L - k - 1) + k := by omega
+  rw [e, pow_add]
+  have h2 : (2 : α) ^ k ≠ 0 := by positivity
+  have h3 : (2 : α) ^ (L - k - 1) ≠ 0 := by positivity
+  field_simp
+
+/-- **StratifiedSFCNNPS with the cell sizes of the code and the level function it had before the
+`fix:` commit** (`current_cells[k] = (cell_size/radius_scale)/2^(num_levels-k-1)`, `_get_level`
+with its absolute `EPS`, read in exact arithmetic): exact whenever that `_get_level` puts every
+particle at a level whose cell size is at least its cut-off — which it did except in the `EPS`
+sliver of `sfc_level_eps_sliver`.  The repaired code needs no such hypothesis:
+`nbrs_exact_StratifiedSFCNNPS_code`. -/
+theorem nbrs_exact_StratifiedSFCNNPS_prefix_code (rs cs eps : α) (L B G : Nat) (o : Pt α)
+    (srt : (Nat → Nat) → Nat → List Nat) (hsrt : SortSpec srt) (arrs : List (List (Pt α)))
+    (s d i : Nat) (src dst : List (Pt α)) (q : Pt α)
+    (hs : arrs[s]? = some src) (hd : arrs[d]? = some dst) (hq : dst[i]? = some q)
+    (hrs : 0 < rs) (hcs : 0 < cs)
+    (hpart : ∀ a ∈ arrs, ∀ p ∈ a, 0 < p.h ∧ sfcLevelOf rs cs eps L p.h < L ∧
+      p.h ≤ sfcCell rs cs L 0 * 2 ^ (sfcLevelOf rs cs eps L p.h) ∧ p.h ≤ (G : α) * sfcCell rs cs L 0)
+    (hfit : ∀ a ∈ arrs, ∀ p ∈ a, cellGuard G (cell3 Int.floor (rs * sfcCell rs cs L 0) o p) = true)
+    (hkey : ∀ a ∈ arrs, ∀ p ∈ a, zKey (cell3 Int.floor
+      (rs * sfcCell rs cs L 0 * 2 ^ (sfcLevelOf rs cs eps L p.h)) o p) < 2 ^ B) :
+    let cands := sfcCands Int.ceil B L (sfcCell rs cs L)
+      (arrs.map (sInOfPts Int.floor rs cs eps L o srt B)) (arrs.map (fun a => hAtOf a)) s d i
+    (nbrsOf rs src q cands).Perm (bruteForce rs src q) ∧ (nbrsOf rs src q cands).Nodup ∧
+      ∀ j ∈ nbrsOf rs src q cands, j < src.length := by
+  have hc0 : 0 < sfcCell rs cs L 0 := by
+    unfold sfcCell
+    rw [pow2_eq]
+    exact div_pos (div_pos hcs hrs) (by positivity)
+  exact nbrs_exact_StratifiedSFCNNPS rs (sfcCell rs cs L 0) L B G o (sfcLevelOf rs cs eps L)
+    (fun k => rs * sfcCell rs cs L k) (sfcCell rs cs L)
+    (fun k hk => by simp only [sfcCell_eq rs cs L k hk]; ring) (fun k hk => sfcCell_eq rs cs L k hk)
+    srt hsrt arrs s d i src dst q hs hd hq hrs hc0 hpart hfit hkey
+
+private theorem ceilLog2Aux_spec (r : α) :
+    ∀ fuel m0, m0 ≤ ceilLog2Aux r fuel m0 ∧
+      ∀ m', m0 ≤ m' → m' < ceilLog2Aux r fuel m0 → (pow2 m' : α) < r := by
+  intro fuel
+  induction fuel with
+  | zero => intro m0; exact ⟨le_refl _, fun m' h1 h2 => by simp only [ceilLog2Aux] at h2; omega⟩
+  | succ f ih =>
+    intro m0
+    unfold ceilLog2Aux
+    by_cases h : (pow2 m0 : α) < r
+    · simp only [h, if_true]
+      obtain ⟨i1, i2⟩ := ih (m0 + 1)
+      refine ⟨by omega, fun m' h1 h2 => ?_⟩
+      by_cases e : m' = m0
+      · rw [e]; exact h
+      · exact i2 m' (by omega) h2
+    · simp only [h, if_false]
+      exact ⟨le_refl _, fun m' h1 h2 => by omega⟩
+
+/-- **The repaired `_get_level` satisfies the level hypothesis** of
+`nbrs_exact_StratifiedSFCNNPS_code`: with `m = max(1, ⌈log2(cs/(rs·h))⌉)` every particle with
+`0 < h`, `rs·h ≤ cs` gets an existing level whose cell size `rs·c0·2^level` is at least its
+cut-off (`c0 = (cs/rs)/2^(L-1)`, `L ≥ 1`). -/
+theorem sfcLevelFixed_ok (rs cs h : α) (L : Nat) (hL : 1 ≤ L) (hrs : 0 < rs) (hh : 0 < h)
+    (hcs : rs * h ≤ cs) :
+    sfcLevelOfFixed rs cs L h < L ∧
+      h ≤ sfcCell rs cs L 0 * 2 ^ (sfcLevelOfFixed rs cs L h) := by
+  have hA : 0 < cs / rs := div_pos (lt_of_lt_of_le (mul_pos hrs hh) hcs) hrs
+  have hr1 : (1 : α) ≤ cs / rs / h := by
+    rw [le_div_iff₀ hh, le_div_iff₀ hrs]; linarith
+  obtain ⟨_, hmin⟩ := ceilLog2Aux_spec (cs / rs / h) 64 0
+  have hbelow : ∀ m', m' < ceilLog2 (cs / rs / h) → (2 : α) ^ m' < cs / rs / h := by
+    intro m' hm'
+    have := hmin m' (Nat.zero_le _) hm'
+    rwa [pow2_eq] at this
+  -- `2^(m-1) ≤ r` for the `m` the repaired code uses
+  have hkey : ∀ e, e + 1 ≤ max 1 (ceilLog2 (cs / rs / h)) → (2 : α) ^ e ≤ cs / rs / h := by
+    intro e he
+    by_cases h0 : e = 0
+    · rw [h0, pow_zero]; exact hr1
+    · exact le_of_lt (hbelow e (by omega))
+  have hle : ∀ e, (2 : α) ^ e ≤ cs / rs / h → h ≤ cs / rs / 2 ^ e := by
+    intro e he
+    have h2 : (0 : α) < 2 ^ e := by positivity
+    rw [le_div_iff₀ h2]
+    rw [le_div_iff₀ hh] at he
+    linarith [mul_comm h ((2 : α) ^ e)]
+  unfold sfcLevelOfFixed
+  generalize hm : max 1 (ceilLog2 (cs / rs / h)) = m at hkey
+  have hm1 : 1 ≤ m := by rw [← hm]; exact le_max_left _ _
+  refine ⟨by omega, ?_⟩
+  unfold sfcCell
+  rw [pow2_eq]
+  by_cases hmL : m ≤ L
+  · have e1 : min L m = m := Nat.min_eq_right hmL
+    rw [e1]
+    have e2 : L - 0 - 1 = (m - 1) + (L - m) := by omega
+    rw [e2, pow_add]
+    have h3 : (2 : α) ^ (L - m) ≠ 0 := by positivity
+    have h4 : (2 : α) ^ (m - 1) ≠ 0 := by positivity
+    have : cs / rs / (2 ^ (m - 1) * 2 ^ (L - m)) * 2 ^ (L - m) = cs / rs / 2 ^ (m - 1) := by
+      field_simp
+    rw [this]
+    exact hle _ (hkey (m - 1) (by omega))
+  · have e1 : min L m = L := Nat.min_eq_left (by omega)
+    rw [e1, Nat.sub_self, pow_zero, mul_one]
+    have e2 : L - 0 - 1 = L - 1 := by omega
+    rw [e2]
+    exact hle _ (hkey (L - 1) (by omega))
+
+/-- **StratifiedSFCNNPS with the cell sizes and the level function of the code** (as repaired):
+`current_cells[k] = (cell_size/radius_scale)/2^(num_levels-k-1)` and
+`_get_level(h) = L - min(L, max(1, ⌈log2(cs/rs/h)⌉))`, read in exact arithmetic.  The level
+hypothesis of the general theorem is discharged by `sfcLevelFixed_ok`: all that is asked of the
+particles is `0 < h` and `rs·h ≤ cell_size` (the cell size is `rs·hmax`), whatever `h` is. -/
+theorem nbrs_exact_StratifiedSFCNNPS_code (rs cs : α) (L B G : Nat) (o : Pt α)
+    (srt : (Nat → Nat) → Nat → List Nat) (hsrt : SortSpec srt) (arrs : List (List (Pt α)))
+    (s d i : Nat) (src dst : List (Pt α)) (q : Pt α)
+    (hs : arrs[s]? = some src) (hd : arrs[d]? = some dst) (hq : dst[i]? = some q)
+    (hL : 1 ≤ L) (hrs : 0 < rs) (hcs : 0 < cs)
+    (hpart : ∀ a ∈ arrs, ∀ p ∈ a, 0 < p.h ∧ rs * p.h ≤ cs ∧ p.h ≤ (G : α) * sfcCell rs cs L 0)
+    (hfit : ∀ a ∈ arrs, ∀ p ∈ a, cellGuard G (cell3 Int.floor (rs * sfcCell rs cs L 0) o p) = true)
+    (hkey : ∀ a ∈ arrs, ∀ p ∈ a, zKey (cell3 Int.floor
+      (rs * sfcCell rs cs L 0 * 2 ^ (sfcLevelOfFixed rs cs L p.h)) o p) < 2 ^ B) :
+    let cands := sfcCands Int.ceil B L (sfcCell rs cs L)
+      (arrs.map (sInOfPtsFixed Int.floor rs cs L o srt B)) (arrs.map (fun a => hAtOf a)) s d i
+    (nbrsOf rs src q cands).Perm (bruteForce rs src q) ∧ (nbrsOf rs src q cands).Nodup ∧
+      ∀ j ∈ nbrsOf rs src q cands, j < src.length := by
+  have hc0 : 0 < sfcCell rs cs L 0 := by
+    unfold sfcCell
+    rw [pow2_eq]
+    exact div_pos (div_pos hcs hrs) (by positivity)
+  have hpart' : ∀ a ∈ arrs, ∀ p ∈ a, 0 < p.h ∧ sfcLevelOfFixed rs cs L p.h < L ∧
+      p.h ≤ sfcCell rs cs L 0 * 2 ^ (sfcLevelOfFixed rs cs L p.h) ∧
+      p.h ≤ (G : α) * sfcCell rs cs L 0 := by
+    intro a ha p hp
+    obtain ⟨h0, h1, h2⟩ := hpart a ha p hp
+    obtain ⟨l1, l2⟩ := sfcLevelFixed_ok rs cs p.h L hL hrs h0 h1
+    exact ⟨h0, l1, l2, h2⟩
+  exact nbrs_exact_StratifiedSFCNNPS rs (sfcCell rs cs L 0) L B G o (sfcLevelOfFixed rs cs L)
+    (fun k => rs * sfcCell rs cs L k) (sfcCell rs cs L)
+    (fun k hk => by simp only [sfcCell_eq rs cs L k hk]; ring) (fun k hk => sfcCell_eq rs cs L k hk)
+    srt hsrt arrs s d i src dst q hs hd hq hrs hc0 hpart' hfit hkey
+
+end strat
+
 /-! ## non-vacuity / executable examples (over ℚ, core `Rat.floor`) -/
 
 /-- three sources, exact tie excluded: `(3,4,0)` is at distance 5 = `rs·h` -/
@@ -715,6 +1536,126 @@ example :
       [Nnps.Tree.leaf ⟨0, 0, 0, 1/4⟩ (1/4) [0, 1], Nnps.Tree.leaf ⟨4, 4, 4, 1/4⟩ 0 [2]]) = true ∧
     Nnps.Tree.invB src (Nnps.Tree.node ⟨0, 0, 0, 1/4⟩ 4
       [Nnps.Tree.leaf ⟨0, 0, 0, 1/4⟩ (1/8) [0, 1], Nnps.Tree.leaf ⟨4, 4, 4, 1/4⟩ 0 [2]]) = false := by
+  decide +kernel
+
+/-- **The level hypothesis of `nbrs_exact_StratifiedSFCNNPS` is not implied by `_get_level`.**
+`_get_level` adds the absolute `EPS = 1e-13` to the cell size before taking `log2`: a particle
+whose cut-off `rs·h` exceeds a level's cell size `s` by a relative amount below `EPS/cell_size` is
+still put at that level.  With `cell_size = 1/512`, two levels: the source particle 2 has
+`rs·h = (1/1024)(1 + 2e-11)`, is stored at level 0 (cell size `1/1024`), lies two cells away from
+the destination particle 1 at distance `(1/1024)(1 + 1e-11) < rs·h` — a true neighbour by a
+relative margin of 1e-11, far outside the rounding band 2^-40 ≈ 9e-13 — and the model of the
+code does not return it.  (Reproduced on the compiled class: see the C01 report, key
+`C01:StratifiedSFCNNPS:level-eps-sliver`.) -/
+theorem sfc_level_eps_sliver :
+    let rs : Rat := 2
+    let cs : Rat := 1/512
+    let eps : Rat := 1/10000000000000
+    let hj : Rat := (1/2048) * (1 + 1/50000000000)
+    let xq : Rat := 10/1024 - 1/1000000000000000
+    let src : List (Pt Rat) :=
+      [⟨0, 0, 0, 1/1024⟩, ⟨xq, 0, 0, 3/20480⟩, ⟨xq + (1/1024) * (1 + 1/100000000000), 0, 0, hj⟩]
+    let o : Pt Rat := ⟨0, 0, 0, 0⟩
+    let ins := [src].map (sInOfPts Rat.floor rs cs eps 2 o sortPids 64)
+    -- level 0, although the cut-off exceeds the level's cell size
+    sfcLevelOf rs cs eps 2 hj = 0 ∧ rs * sfcCell rs cs 2 0 < rs * hj ∧
+    src.map (fun p => sfcLevelOf rs cs eps 2 p.h) = [1, 0, 0] ∧
+    -- the neighbour is missed
+    bruteForce rs src ⟨xq, 0, 0, 3/20480⟩ = [1, 2] ∧
+    nbrsOf rs src ⟨xq, 0, 0, 3/20480⟩
+      (sfcCands Rat.ceil 64 2 (sfcCell rs cs 2) ins [hAtOf src] 0 0 1) = [1] := by
+  decide +kernel
+
+/-! ### z-order family and stratified classes: non-vacuity / executable examples -/
+
+/-- three arrays on the cloud of the storage examples: the second array is sparse (its particle 0
+lies in a cell the first array does not occupy, its particle 1 shares a cell with particle 3 of the
+first), the third is empty.  The hypotheses of `nbrs_exact_ZOrderNNPS` hold (`cellGuard 1`, keys
+below `max_key`), the shared cell ids are `0,0,1,2,0 / 3,2 / -`, the row of cell id 3 (a cell only
+array 1 occupies) in array 0's `nbr_boxes` is filled by the second pass with the start index 3 of
+the neighbouring run, and the (src, dst) pairs give the brute-force sets. -/
+example :
+    let a0 : List (Pt Rat) :=
+      [⟨0, 0, 0, 1/4⟩, ⟨1/4, 0, 0, 1/4⟩, ⟨3/4, 1/2, 0, 1/4⟩, ⟨2, 2, 0, 1/4⟩, ⟨1/4, 1/4, 0, 1/8⟩]
+    let a1 : List (Pt Rat) := [⟨1, 3/4, 0, 1/4⟩, ⟨9/4, 2, 0, 1/8⟩]
+    let arrs := [a0, a1, []]
+    let o : Pt Rat := ⟨-1/100, -1/100, 0, 0⟩
+    let ins := arrs.map (zInOfPts Rat.floor (1/2 : Rat) o sortPids)
+    let zs := (zBuild ins).1
+    let z0 : ZArr := zs.getD 0 ⟨0, fun _ => (0,0,0), [], [], []⟩
+    (arrs.all (fun a => a.all (fun p => cellGuard 1 (cell3 Rat.floor (1/2) o p) &&
+      decide (zKey (cell3 Rat.floor (1/2) o p) < 1000)))) = true ∧
+    zs.map (fun a => (List.range a.n).map a.cids) = [[0, 0, 1, 2, 0], [3, 2], []] ∧
+    (zBuild ins).2 = 4 ∧ zs.map (fun a => a.pids) = [[0, 1, 4, 2, 3], [0, 1], []] ∧
+    ((zRows 27 zs 0 z0 (fun c _ => zNbrIdx 1000 (maskZ 1) z0 c) 3).take 3 = [3, -1, -1]) ∧
+    ((zRows 27 zs 0 z0 (fun c _ => zNbrIdx 1000 (maskZ 1) z0 c) 0).take 3 = [0, 3, -1]) ∧
+    zOrderCands 1000 ins 0 1 0 = [2] ∧
+    nbrsOf (2 : Rat) a0 ⟨1, 3/4, 0, 1/4⟩ (zOrderCands 1000 ins 0 1 0) = [2] ∧
+    bruteForce (2 : Rat) a0 ⟨1, 3/4, 0, 1/4⟩ = [2] ∧
+    nbrsOf (2 : Rat) a1 ⟨2, 2, 0, 1/4⟩ (zOrderCands 1000 ins 1 0 3) = [1] ∧
+    bruteForce (2 : Rat) a1 ⟨2, 2, 0, 1/4⟩ = [1] ∧
+    zOrderCands 1000 ins 2 0 3 = [] := by
+  decide +kernel
+
+/-- ExtendedZOrderNNPS on the same arrays, `H = 2` (sub-cells 1/4), asymmetric and symmetric
+mode: guard and key range hold, exact results for a destination of the same and of another array -/
+example :
+    let a0 : List (Pt Rat) :=
+      [⟨0, 0, 0, 1/4⟩, ⟨1/4, 0, 0, 1/4⟩, ⟨3/4, 1/2, 0, 1/4⟩, ⟨2, 2, 0, 1/4⟩, ⟨1/4, 1/4, 0, 1/8⟩]
+    let a1 : List (Pt Rat) := [⟨1, 3/4, 0, 1/4⟩, ⟨9/4, 2, 0, 1/8⟩]
+    let arrs := [a0, a1, []]
+    let o : Pt Rat := ⟨-1/100, -1/100, 0, 0⟩
+    let ins := arrs.map (zInOfPts Rat.floor (1/4 : Rat) o sortPids)
+    let hs := arrs.map (fun a => hAtOf a)
+    let q : Pt Rat := ⟨1/4, 1/4, 0, 1/8⟩
+    (arrs.all (fun a => a.all (fun p => cellGuard 2 (cell3 Rat.floor (1/4) o p) &&
+      decide (zKey (cell3 Rat.floor (1/4) o p) < 10000)))) = true ∧
+    extZOrderAsymCands 10000 2 ins 0 0 4 = [0, 1, 4, 2] ∧
+    extZOrderSymCands Rat.ceil 10000 2 (2 : Rat) (1/4) ins hs 0 0 4 = [0, 1, 4, 2] ∧
+    nbrsOf (2 : Rat) a0 q (extZOrderAsymCands 10000 2 ins 0 0 4) = [0, 1, 4] ∧
+    nbrsOf (2 : Rat) a0 q (extZOrderSymCands Rat.ceil 10000 2 (2 : Rat) (1/4) ins hs 0 0 4) = [0, 1, 4] ∧
+    bruteForce (2 : Rat) a0 q = [0, 1, 4] ∧
+    extZOrderAsymCands 10000 2 ins 0 1 0 = [2] ∧
+    extZOrderSymCands Rat.ceil 10000 2 (2 : Rat) (1/4) ins hs 0 1 0 = [2] := by
+  decide +kernel
+
+/-- StratifiedHashNNPS with two levels (`hmin = 1/4`, `cs = 1/2`, `EPS = 1e-6`): the particle with
+`h = 1/8` is stored at level 0, the others at level 1; a query with `h = 1/4` uses mask half-width
+2 at level 0 and 1 at level 1; exact result -/
+example :
+    let src : List (Pt Rat) :=
+      [⟨0, 0, 0, 1/4⟩, ⟨1/4, 0, 0, 1/4⟩, ⟨3/4, 1/2, 0, 1/4⟩, ⟨2, 2, 0, 1/4⟩, ⟨1/4, 1/4, 0, 1/8⟩]
+    let o : Pt Rat := ⟨-1/100, -1/100, 0, 0⟩
+    let q : Pt Rat := ⟨1/4, 1/4, 0, 1/8⟩
+    let ivl := stratInterval (1/2 : Rat) (1/4) (1/1000000) 2
+    src.map (fun p => stratLevel Rat.floor (2 : Rat) (1/4) ivl p.h) = [1, 1, 1, 1, 0] ∧
+    stratHq Rat.ceil (2 : Rat) (1/4) ivl 1 q.h 0 = 1 ∧ stratHq Rat.ceil (2 : Rat) (1/4) ivl 1 (1/4) 0 = 2 ∧
+    stratHq Rat.ceil (2 : Rat) (1/4) ivl 1 q.h 1 = 1 ∧
+    stratHashCands Rat.floor Rat.ceil (spatialHash 7) (2 : Rat) (1/2) (1/4) (1/1000000) 2 1 o src q =
+      [4, 0, 1, 2] ∧
+    nbrsOf (2 : Rat) src q (stratHashCands Rat.floor Rat.ceil (spatialHash 7) (2 : Rat) (1/2) (1/4)
+      (1/1000000) 2 1 o src q) = [4, 0, 1] ∧
+    bruteForce (2 : Rat) src q = [0, 1, 4] := by
+  decide +kernel
+
+/-- StratifiedSFCNNPS with two levels on two arrays: levels `1,1,1,1,0 / 1,0`,
+`current_cells = 1/8, 1/4`; the query of array 1's particle 0 (whose finest-level cell holds no
+particle of array 0) finds its segment because the other arrays' particles are representatives too -/
+example :
+    let a0 : List (Pt Rat) :=
+      [⟨0, 0, 0, 1/4⟩, ⟨1/4, 0, 0, 1/4⟩, ⟨3/4, 1/2, 0, 1/4⟩, ⟨2, 2, 0, 1/4⟩, ⟨1/4, 1/4, 0, 1/16⟩]
+    let a1 : List (Pt Rat) := [⟨1, 3/4, 0, 1/4⟩, ⟨9/4, 2, 0, 1/16⟩]
+    let arrs := [a0, a1]
+    let o : Pt Rat := ⟨-1/100, -1/100, 0, 0⟩
+    let ins := arrs.map (sInOfPtsFixed Rat.floor (2 : Rat) (1/2) 2 o sortPids 64)
+    let hs := arrs.map (fun a => hAtOf a)
+    arrs.map (fun a => a.map (fun p => sfcLevelOfFixed (2 : Rat) (1/2) 2 p.h)) = [[1, 1, 1, 1, 0], [1, 0]] ∧
+    [sfcCell (2 : Rat) (1/2) 2 0, sfcCell (2 : Rat) (1/2) 2 1] = [1/8, 1/4] ∧
+    sfcCands Rat.ceil 64 2 (sfcCell (2 : Rat) (1/2) 2) ins hs 0 1 0 = [2] ∧
+    sfcCands Rat.ceil 64 2 (sfcCell (2 : Rat) (1/2) 2) ins hs 0 0 4 = [4, 0, 1, 2] ∧
+    nbrsOf (2 : Rat) a0 ⟨1/4, 1/4, 0, 1/16⟩ (sfcCands Rat.ceil 64 2 (sfcCell (2 : Rat) (1/2) 2) ins hs 0 0 4)
+      = [4, 0, 1] ∧
+    sfcCands Rat.ceil 64 2 (sfcCell (2 : Rat) (1/2) 2) ins hs 1 0 3 = [1] := by
   decide +kernel
 
 end PysphVerif.C01
